@@ -427,6 +427,16 @@ size_t varintAdaptiveEncode(uint8_t *dst, const uint64_t *values, size_t count,
     varintAdaptiveEncodingType encodingType =
         varintAdaptiveSelectEncoding(&stats);
 
+    /* Above 10000 values uniqueness is only estimated from a sample. A
+     * dictionary chosen on a wrong estimate can be larger than
+     * varintAdaptiveMaxSize() promises, so confirm its real size first. */
+    if (encodingType == VARINT_ADAPTIVE_DICT && count > 10000) {
+        const size_t dictSize = varintDictEncodedSize(values, count);
+        if (dictSize == 0 || dictSize + 1 > varintAdaptiveMaxSize(count)) {
+            encodingType = VARINT_ADAPTIVE_TAGGED;
+        }
+    }
+
     /* Encode with selected encoding */
     return varintAdaptiveEncodeWith(dst, values, count, encodingType, meta);
 }
